@@ -15,6 +15,7 @@ from ..common import Discard, HarnessError, Violation, digest_obj, substream
 
 ID = "C09"
 LEVEL = "exploration"
+NONREPRODUCIBLE_IS_VIOLATION = True
 RULE = (
     "groups = one scenario (screening on in ~70% so the parallel kernel runs, adaptive, time-dependent drives, callable currents so "
     "the random validator runs) x 1 reference + 3..5 variant executions, each in a fresh interpreter: PYTHONHASHSEED, threads 1..16, "
